@@ -22,7 +22,7 @@ func init() {
 			return map[string]int{"c05.leaf": leafKinds * 2, "c05.depth2": 3 * leafKinds * leafKinds}
 		},
 	})
-	expectedProbes["C05"] = []string{"c05.required_invalid", "c05.permitted_invalid", "c05.sample_node", "c05.row_dropped", "c05.interleave_dups", "c05.label", "c05.condition_false_branch"}
+	expectedProbes["C05"] = []string{"c05.required_invalid", "c05.invalid_node_unreached", "c05.permitted_invalid", "c05.sample_node", "c05.row_dropped", "c05.interleave_dups", "c05.label", "c05.condition_false_branch"}
 }
 
 var c05Quals = []string{"q", "", "q\x00", "r", "\xff", "a.b", "\x00\x01", "q\nr", "2q"}
@@ -91,8 +91,18 @@ func checkFilteredRead(r *Run, op string, f *btpb.RowFilter, base []ORow, resp r
 		want = append(want, fo.outs)
 	}
 	code := codeOf(resp.Err)
+	if required < 0 && staticRequired(f) {
+		// no stored row reaches the invalid node (or the table is empty): the filter is
+		// invalid all the same and must not be ignored
+		r.Probe("c05.invalid_node_unreached")
+		if code != codes.InvalidArgument {
+			r.Fail("invalid-filter-accepted", "", "%s: the filter holds an invalid node that no stored row reaches; it must be rejected with InvalidArgument all the same, but the read ended with %v (%v)", op, code, resp.Err)
+			return false
+		}
+		return true
+	}
 	if required >= 0 {
-		r.Probe("c05.required_invalid")
+		r.Probe("c05.required_invalid", "c05.invalid_node_unreached")
 		if code != codes.InvalidArgument {
 			r.Fail("invalid-filter-accepted", "", "%s: evaluation of row %q reaches an invalid filter (%s) but the read ended with %v (%v)", op, base[required].Key, reqMsg, code, resp.Err)
 			return false
